@@ -7,9 +7,18 @@ use crate::dot::DotBuilder;
 use crate::http::Request;
 #[cfg(feature = "dot")]
 use dot_graph::{Edge, Graph, Node};
+#[cfg(kani)]
+use crate::verif_shim::regex_model::Regex;
+#[cfg(not(kani))]
 use regex::Regex;
 use serde::{Deserialize, Serialize};
+#[cfg(kani)]
+use crate::verif_shim::map::HashSet;
+#[cfg(kani)]
+use crate::verif_shim::sorted::{BTreeMap, BTreeSet};
+#[cfg(not(kani))]
 use std::collections::BTreeSet;
+#[cfg(not(kani))]
 use std::collections::{BTreeMap, HashSet};
 use std::sync::Arc;
 
